@@ -39,6 +39,7 @@ import (
 	str "github.com/echovault/sugardb/internal/modules/string"
 	"github.com/echovault/sugardb/internal/raft"
 	"github.com/echovault/sugardb/internal/snapshot"
+	"github.com/tidwall/resp"
 	"io"
 	"log"
 	"net"
@@ -517,8 +518,13 @@ func (server *SugarDB) handleConnection(conn net.Conn) {
 		}
 	}()
 
+	// One reader for the lifetime of the connection: it consumes the byte stream command by command,
+	// however the commands are distributed over the reads (several commands in one read, one command
+	// spread over several reads).
+	reader := resp.NewReader(r)
+
 	for {
-		message, err := internal.ReadMessage(r)
+		value, _, err := reader.ReadValue()
 
 		if err != nil && errors.Is(err, io.EOF) {
 			// Connection closed
@@ -526,6 +532,12 @@ func (server *SugarDB) handleConnection(conn net.Conn) {
 			break
 		}
 
+		if err != nil {
+			log.Println(err)
+			break
+		}
+
+		message, err := value.MarshalRESP()
 		if err != nil {
 			log.Println(err)
 			break
